@@ -7,6 +7,7 @@ import HbsModel.Lemmas.PlainTags
 import HbsModel.Lemmas.CompileName
 import HbsModel.Lemmas.CompileHtmlName
 import HbsModel.Lemmas.NameTags
+import HbsModel.Lemmas.CompilePath
 
 import HbsModel.Lemmas.RenderPlain
 /-
@@ -965,5 +966,85 @@ theorem texts_and_named_tags_render (r : Registry) (fs : FS) (s0 : Str) (more : 
 /-- the source of the theorem is what it looks like: `a{{x}} {{{y-1}}}b` -/
 example : namedSrc ['a'] [(⟨.dbl, ['x']⟩, [' ']), (⟨.triple, ['y', '-', '1']⟩, ['b'])]
     = ['a', '{', '{', 'x', '}', '}', ' ', '{', '{', '{', 'y', '-', '1', '}', '}', '}', 'b'] := by decide
+
+/-! ### every dotted path: `{{n0.n1/n2…}}` between two texts -/
+
+/-- the compiled value expression of a path of named segments writes `escape (text of the value the segments designate)` -/
+theorem segs_value_writes_escaped (n0 : Str) (rest : List (Char × Str)) (reg : Registry) (root j : Json) (rc0 : RC)
+    (hb : rc0.blocks = [{}]) (hi : rc0.indentString = none) (hmc : rc0.modifiedCtx = none) (hde : rc0.disableEscape = false)
+    (hl : assocGet rc0.localHelpers (PlainText.pathText n0 rest) = none) (hr : assocGet reg.helpers (PlainText.pathText n0 rest) = none)
+    (hsafe : Spec.indexSafe root (n0 :: rest.map (·.2)) = true) (hj : Spec.descend root (n0 :: rest.map (·.2)) = some j) :
+    WritesText reg root rc0 (.expr (PlainText.pathHT n0 rest)) (reg.escape j.render) := by
+  intro fuel rc out hq hf
+  have hsegs : PlainText.pathSegs n0 rest = C01.names (n0 :: rest.map (·.2)) := by
+    simp [PlainText.pathSegs, C01.names, List.map_map, Function.comp_def]
+  have hev : evaluate2 root (.relative (PlainText.pathSegs n0 rest) (PlainText.pathText n0 rest)) rc out
+      = .ok (.context j (n0 :: rest.map (·.2))) rc out := by
+    have hblocks : rc.blocks = [{}] := by rw [hq.blocks, hb]
+    have := C01.navigate_current_path_scope root {} [] n0 (rest.map (·.2)) rc out (by simp [getInBlockParams, assocGet]) rfl (by simpa using hsafe)
+    simp only [evaluate2, RM.bind_def, RM.bnd_apply, RM.get_apply, hblocks, hsegs, this, C01.blockValue]
+    have hj' : (Spec.descend root []).bind (fun v => Spec.descend v (n0 :: rest.map (·.2))) = some j := by simpa [Spec.descend] using hj
+    simp only [List.nil_append] at hj' ⊢
+    rw [hj']
+  have h : renderElem reg root (fuel + 6) (.expr (PlainText.pathHT n0 rest)) rc out = _ :=
+    expr_path_escapes_once reg root (fuel + 2) (PlainText.pathHT n0 rest) (.relative (PlainText.pathSegs n0 rest) (PlainText.pathText n0 rest)) rc out
+      (.context j (n0 :: rest.map (·.2))) rfl rfl (by rw [hq]; exact hl) hr (by rw [hq]; exact hmc) (by rw [hq]; exact hde) hev rfl
+  rw [h]
+  exact indentAwareWrite_quiet rc0 hi _ rc out hq hf
+
+/-- **render(L ++ {{n0.n1/n2…}} ++ R) = L ++ escape(text of data.n0.n1.n2…) ++ R for EVERY dotted path** – any number of
+    segments, each any non-empty run of the grammar's `symbol_char` class (the first not beginning with `else`, none of them
+    `this`), joined by `.` or `/` in any mix – between every text `L` that may stand before a tag and every text `R` without `{{`,
+    for every data value and every escape function: the path designates the value reached by descending the data segment by
+    segment (C01's rule for a plain context path, here from the source text), and that value is escaped exactly once.  The pairs
+    of the tag are derived from the regenerated grammar for all paths at once (`Lemmas/PathTag.lean`: the loop
+    `(path_sep ~ path_item)*` by induction over the segments), `parse_json_path_from_iter` by induction over the pairs
+    (`Lemmas/CompilePath.lean`). -/
+theorem dotted_path_between_texts_escaped_once (r : Registry) (fs : FS) (n0 : Str) (rest : List (Char × Str)) (L R : Str) (data j : Json)
+    (hdev : r.dev = false) (hp : PlainText.PathName n0 rest) (hno : PlainText.NoThis n0 rest)
+    (hL : L = [] ∨ PlainText.TextBeforeTag L) (hR : PlainText.noOpen R)
+    (hnohelper : assocGet r.helpers (PlainText.pathText n0 rest) = none)
+    (hsafe : Spec.indexSafe data (n0 :: rest.map (·.2)) = true) (hj : Spec.descend data (n0 :: rest.map (·.2)) = some j) :
+    r.renderTemplate fs (L ++ PlainText.pathSrc n0 rest ++ R) data = .ok (L ++ r.escape j.render ++ R) := by
+  unfold Registry.renderTemplate Registry.renderTemplateToWrite Registry.renderTemplateWithContextToWrite
+    Registry.compileForRenderTemplate
+  obtain ⟨m, hcomp⟩ := PlainText.compile_text_path_text_pos n0 rest L _ _ { preventIndent := r.preventIndent } hp hno hL
+    (PlainText.textAfterTag_split R hR)
+  rw [← PlainText.split_ws R] at hcomp
+  rw [hcomp]
+  simp only [Registry.renderResolved, hdev, Bool.not_false, ↓reduceIte]
+  let ets : List (Elem × Str) := (if L = [] then [] else [(.raw L, L)]) ++ [(.expr (PlainText.pathHT n0 rest), r.escape j.render)]
+    ++ (if R = [] then [] else [(.raw R, R)])
+  have hel : (PlainText.leftT L L).elements ++ [Elem.expr (PlainText.pathHT n0 rest)] ++ (if R = [] then [] else [Elem.raw R]) = ets.map (·.1) := by
+    simp only [ets]
+    by_cases hLe : L = [] <;> by_cases hRe : R = [] <;> simp [hLe, hRe, PlainText.leftT, Tmpl.empty, Tmpl.elements]
+  have htxt : (ets.map (·.2)).flatten = L ++ r.escape j.render ++ R := by
+    simp only [ets]
+    by_cases hLe : L = [] <;> by_cases hRe : R = [] <;> simp [hLe, hRe]
+  rw [hel]
+  have hw : ∀ p ∈ ets, WritesText r data { ({ rootTemplate := none } : RC) with currentTemplate := none } p.1 p.2 := by
+    intro p hp'
+    simp only [ets, List.mem_append, List.mem_singleton] at hp'
+    rcases hp' with (hp' | rfl) | hp'
+    · split at hp'
+      · simp at hp'
+      · simp at hp'; subst hp'; exact writes_raw r data _ rfl L
+    · exact segs_value_writes_escaped n0 rest r data j _ rfl rfl rfl rfl rfl hnohelper hsafe hj
+    · split at hp'
+      · simp at hp'
+      · simp at hp'; subst hp'; exact writes_raw r data _ rfl R
+  have hlen : ets.length + 12 ≤ renderFuel := by
+    have h1 : (if L = [] then [] else [((Elem.raw L, L) : Elem × Str)]).length ≤ 1 := by split <;> simp
+    have h2 : (if R = [] then [] else [((Elem.raw R, R) : Elem × Str)]).length ≤ 1 := by split <;> simp
+    simp only [ets, List.length_append, List.length_singleton]
+    have : renderFuel = 4000 := rfl
+    omega
+  have := render_writes_template r data none ets ((PlainText.leftT L L).mapping ++ [Pest.lineCol (L ++ PlainText.pathSrc n0 rest ++ R) L.length] ++ m)
+    { rootTemplate := none } hlen hw
+  simp only [Tmpl.name] at this ⊢
+  rw [this, htxt]
+
+/-- the source of the theorem is what it looks like: `{{user.name/first-1}}` -/
+example : PlainText.pathSrc ['u'] [('.', ['n']), ('/', ['f', '-', '1'])] = ['{', '{', 'u', '.', 'n', '/', 'f', '-', '1', '}', '}'] := by decide
 
 end Hbs.C02
